@@ -21,6 +21,7 @@ package main
 
 import (
 	"encoding/json"
+	"time"
 	"errors"
 	"flag"
 	"fmt"
@@ -88,6 +89,11 @@ type input struct {
 	BRef    string `json:"b_ref,omitempty"`  // how b's own ingress spells its reference (default "foreign")
 	AOwn    bool   `json:"a_own,omitempty"`  // namespace a has its own object named foreign (in both worlds)
 	Flip    bool   `json:"flip,omitempty"`   // the key of the referenced kind is allow during a first reconciliation, then set as in Setting
+	// conversion order of b's own ingress/route relative to the reader of namespace a, through
+	// metadata.creationTimestamp: "" (equal: a sorts first) | owner-first | owner-last
+	Order string `json:"order,omitempty"`
+	// both ingresses arrive after the first (full) reconciliation and are converted by one partial sync
+	PartialBoth bool `json:"partial_both,omitempty"`
 	// gwsites: a Gateway API reference of namespace a
 	GW *gwRef `json:"gateway_ref,omitempty"`
 	Partial bool   `json:"partial,omitempty"`
@@ -387,8 +393,23 @@ func usedBy(p *c0809.Pipeline, key string) string {
 	return ""
 }
 
-// one world of a sites input; foreign tells whether b/foreign exists
-func runWorld(in input, foreign bool) worldObs {
+var t0 = time.Date(2026, 1, 1, 0, 0, 0, 0, time.UTC)
+
+// creation timestamps of (owner object of namespace b, reader object of namespace a)
+func orderStamps(order string) (metav1.Time, metav1.Time) {
+	switch order {
+	case "owner-first":
+		return metav1.NewTime(t0), metav1.NewTime(t0.Add(time.Hour))
+	case "owner-last":
+		return metav1.NewTime(t0.Add(time.Hour)), metav1.NewTime(t0)
+	}
+	return metav1.NewTime(t0), metav1.NewTime(t0)
+}
+
+// one world of a sites input; variant: 0 = b/foreign does not exist, 1 and 2 = it exists
+// with two different contents
+func runWorld(in input, variant int) worldObs {
+	foreign := variant != 0
 	rd := *in.Reader
 	var objs []client.Object
 	for _, ns := range []string{"a", "b"} {
@@ -401,10 +422,10 @@ func runWorld(in input, foreign bool) worldObs {
 	}
 	if foreign {
 		if kindOf(rd.Key) == "service" {
-			svc, ep := c0809.Service("b", "foreign", 8080, "172.17.0.99", nil)
+			svc, ep := c0809.Service("b", "foreign", 8080, map[int]string{1: "172.17.0.99", 2: "172.17.0.97"}[variant], nil)
 			objs = append(objs, svc, ep)
 		} else {
-			objs = append(objs, c0809.Secret("b", "foreign", c0809.SecretData(kindOf(rd.Key), "b", "foreign")))
+			objs = append(objs, c0809.Secret("b", "foreign", c0809.SecretDataV(kindOf(rd.Key), "b", "foreign", variant)))
 		}
 	}
 	if in.AOwn {
@@ -437,10 +458,13 @@ func runWorld(in input, foreign bool) worldObs {
 	if rd.On == "ingress" {
 		placeRef(inga, inga.Annotations, rd.Key, rd.Ref)
 	}
+	ingb.CreationTimestamp, inga.CreationTimestamp = orderStamps(in.Order)
 	env := c0809.NewEnv(nextDir(), c0809.CfgIn{IngressClass: "haproxy", ControllerName: oursCtrl, AllowCrossNs: in.Setting.Static}, objs...)
 	p := c0809.NewPipeline(env)
-	c0809.Must(env.Client.Create(env.Ctx, ingb.DeepCopy()))
-	if !in.Partial {
+	if !in.PartialBoth {
+		c0809.Must(env.Client.Create(env.Ctx, ingb.DeepCopy()))
+	}
+	if !in.Partial && !in.PartialBoth {
 		c0809.Must(env.Client.Create(env.Ctx, inga.DeepCopy()))
 	}
 	// the global ConfigMap reaches the converters through the real ConfigMap watcher
@@ -456,7 +480,15 @@ func runWorld(in input, foreign bool) worldObs {
 		p.Watchers.FireCreate(cm)
 	}
 	p.Reconcile(p.Watchers.Swap(), nil)
-	if in.Partial {
+	if in.PartialBoth {
+		// owner and reader arrive later, in one batch: a partial sync converts both
+		c0809.Must(env.Client.Create(env.Ctx, ingb.DeepCopy()))
+		c0809.Must(env.Client.Create(env.Ctx, inga.DeepCopy()))
+		p.Watchers.Swap()
+		p.Watchers.FireCreate(ingb)
+		p.Watchers.FireCreate(inga)
+		p.Reconcile(p.Watchers.Swap(), nil)
+	} else if in.Partial {
 		// the reader arrives later: watcher event, partial sync
 		c0809.Must(env.Client.Create(env.Ctx, inga.DeepCopy()))
 		p.Watchers.Swap()
@@ -548,7 +580,7 @@ func sameView(a, b c0809.NsView) bool {
 
 // ---------- Gateway API sites ----------
 
-var svcIPs = map[string]string{"172.17.0.11": "a/svc", "172.17.0.12": "b/svc", "172.17.0.99": "b/foreign", "172.17.0.98": "a/foreign"}
+var svcIPs = map[string]string{"172.17.0.11": "a/svc", "172.17.0.12": "b/svc", "172.17.0.99": "b/foreign", "172.17.0.97": "b/foreign", "172.17.0.98": "a/foreign"}
 
 func gwBitOf(site string) int {
 	if site == "certificateref" {
@@ -583,7 +615,7 @@ func gwBackendRef(r gwRef) gatewayv1.BackendRef {
 }
 
 // gateway + route of one namespace; site tells where ref goes, the other references are the namespace's own svc
-func gwObjects(ns, host string, site string, ref gwRef) []client.Object {
+func gwObjects(ns, host string, site string, ref gwRef, stamp metav1.Time) []client.Object {
 	own := gwRef{Name: "svc"}
 	var cert *gwRef
 	backend := own
@@ -608,20 +640,22 @@ func gwObjects(ns, host string, site string, ref gwRef) []client.Object {
 	objs := []client.Object{gw}
 	if site == "backendref-tcp" {
 		tsec := gatewayv1.SectionName("tcp")
-		tr := &gatewayv1alpha2.TCPRoute{ObjectMeta: metav1.ObjectMeta{Namespace: ns, Name: "trt"}}
+		tr := &gatewayv1alpha2.TCPRoute{ObjectMeta: metav1.ObjectMeta{Namespace: ns, Name: "trt", CreationTimestamp: stamp}}
 		tr.Spec.ParentRefs = []gatewayv1.ParentReference{{Name: "gw", SectionName: &tsec}}
 		tr.Spec.Rules = []gatewayv1alpha2.TCPRouteRule{{BackendRefs: []gatewayv1.BackendRef{gwBackendRef(backend)}}}
 		return append(objs, tr)
 	}
-	hr := &gatewayv1.HTTPRoute{ObjectMeta: metav1.ObjectMeta{Namespace: ns, Name: "rt"}}
+	hr := &gatewayv1.HTTPRoute{ObjectMeta: metav1.ObjectMeta{Namespace: ns, Name: "rt", CreationTimestamp: stamp}}
 	hr.Spec.ParentRefs = []gatewayv1.ParentReference{{Name: "gw", SectionName: &section}}
 	hr.Spec.Hostnames = []gatewayv1.Hostname{gatewayv1.Hostname(host)}
 	hr.Spec.Rules = []gatewayv1.HTTPRouteRule{{BackendRefs: []gatewayv1.HTTPBackendRef{{BackendRef: gwBackendRef(backend)}}}}
 	return append(objs, hr)
 }
 
-// one world of a gwsites input; foreign tells whether b/foreign exists
-func runGwWorld(in input, foreign bool) worldObs {
+// one world of a gwsites input; variant as in runWorld
+func runGwWorld(in input, variant int) worldObs {
+	foreign := variant != 0
+	stampB, stampA := orderStamps(in.Order)
 	ref := *in.GW
 	isCert := ref.Site == "certificateref"
 	objs := []client.Object{&gatewayv1.GatewayClass{ObjectMeta: metav1.ObjectMeta{Name: "haproxy"},
@@ -637,7 +671,11 @@ func runGwWorld(in input, foreign bool) worldObs {
 	addSvc("b", "svc", "172.17.0.12", nil)
 	addForeign := func(ns, ip string) {
 		if isCert {
-			objs = append(objs, c0809.Secret(ns, "foreign", c0809.SecretData("tls", ns, "foreign")))
+			v := 1
+			if ns == "b" {
+				v = variant
+			}
+			objs = append(objs, c0809.Secret(ns, "foreign", c0809.SecretDataV("tls", ns, "foreign", v)))
 			secrets = append(secrets, [3]string{ns, "foreign", "tls"})
 		} else {
 			// a service annotation of the foreign service would reach the reader's backend too
@@ -645,14 +683,14 @@ func runGwWorld(in input, foreign bool) worldObs {
 		}
 	}
 	if foreign {
-		addForeign("b", "172.17.0.99")
+		addForeign("b", map[int]string{1: "172.17.0.99", 2: "172.17.0.97"}[variant])
 	}
 	if in.AOwn {
 		addForeign("a", "172.17.0.98")
 	}
-	objs = append(objs, gwObjects("a", "a.local", ref.Site, ref)...)
+	objs = append(objs, gwObjects("a", "a.local", ref.Site, ref, stampA)...)
 	if in.BUses == "same-key" {
-		objs = append(objs, gwObjects("b", "b.local", ref.Site, gwRef{Site: ref.Site, Name: "foreign"})...)
+		objs = append(objs, gwObjects("b", "b.local", ref.Site, gwRef{Site: ref.Site, Name: "foreign"}, stampB)...)
 	}
 	env := c0809.NewEnv(nextDir(), c0809.CfgIn{IngressClass: "haproxy", ControllerName: oursCtrl, AllowCrossNs: in.Setting.Static, Gateway: true}, objs...)
 	p := c0809.NewPipeline(env)
@@ -718,6 +756,7 @@ func genGwSite(rng *rand.Rand) input {
 		in.BUses = "same-key"
 	}
 	in.AOwn = rng.Intn(3) == 0
+	in.Order = []string{"", "owner-first", "owner-first", "owner-last"}[rng.Intn(4)]
 	return in
 }
 
@@ -837,6 +876,10 @@ func genSite(rng *rand.Rand) input {
 	in.Repeat = 3
 	in.AOwn = rng.Intn(3) == 0
 	in.Flip = rng.Intn(4) == 0
+	in.Order = []string{"", "owner-first", "owner-first", "owner-last"}[rng.Intn(4)]
+	if !in.Partial && rng.Intn(3) == 0 {
+		in.PartialBoth = true
+	}
 	if in.BUses == "same-key" && key != "auth-url" && rng.Intn(3) == 0 {
 		in.BRef = []string{"secret://foreign", "/foreign", "b/foreign", "secret:///foreign"}[rng.Intn(4)]
 	}
@@ -857,6 +900,9 @@ func corpus() []input {
 		// allowed first, then denied: what was read across namespaces has to go away
 		{Kind: "sites", Setting: deny, Reader: &site{Key: "tls", Ref: "b/foreign", On: "ingress"}, Flip: true, Repeat: 1},
 		{Kind: "sites", Setting: deny, Reader: &site{Key: "auth-secret", Ref: "b/foreign", On: "ingress"}, BUses: "same-key", Flip: true, Repeat: 2},
+		// the owner namespace reads its own secret earlier in the same sync (conversion order owner first)
+		{Kind: "sites", Setting: deny, Reader: &site{Key: "tls", Ref: "b/foreign", On: "ingress"}, BUses: "same-key", Order: "owner-first"},
+		{Kind: "sites", Setting: deny, Reader: &site{Key: "tls", Ref: "secret://b/foreign", On: "ingress"}, BUses: "same-key", Order: "owner-first", PartialBoth: true},
 		// Gateway API: a backendRef / certificateRef of namespace a that carries namespace: b
 		{Kind: "gwsites", Setting: deny, GW: &gwRef{Site: "backendref-http", Name: "foreign", NS: sp("b")}, BUses: "same-key"},
 		{Kind: "gwsites", Setting: deny, GW: &gwRef{Site: "backendref-tcp", Name: "foreign", NS: sp("b")}},
@@ -922,6 +968,36 @@ func main() {
 		}
 		for i := 0; i < ns; i++ {
 			inputs = append(inputs, genSite(rng))
+		}
+		// every read site with all keys at deny, while the owner namespace uses the very same object in
+		// the same sync: owner converted before / after the reader, full sync, partial sync of the reader
+		// only, partial sync of both
+		for _, key := range siteKeys {
+			ons := []string{"ingress"}
+			if key != "tls" && key != "auth-tls-secret" {
+				ons = append(ons, "service")
+			}
+			for _, on := range ons {
+				for _, order := range []string{"", "owner-first", "owner-last"} {
+					for _, mode := range []string{"full", "partial-reader", "partial-both"} {
+						refs := siteRefs(key)[:2]
+						for _, ref := range refs {
+							in := input{Kind: "sites", Setting: setting{}, Reader: &site{Key: key, Ref: ref, On: on}, BUses: "same-key", Order: order,
+								Partial: mode == "partial-reader", PartialBoth: mode == "partial-both", Repeat: 1}
+							inputs = append(inputs, in)
+						}
+					}
+				}
+			}
+		}
+		for _, gsite := range gwSites {
+			for _, order := range []string{"owner-first", "owner-last"} {
+				for _, nsm := range []*string{nil, sp("b")} {
+					for _, name := range []string{"foreign", "b/foreign"} {
+						inputs = append(inputs, input{Kind: "gwsites", Setting: setting{}, GW: &gwRef{Site: gsite, Name: name, NS: nsm}, BUses: "same-key", Order: order})
+					}
+				}
+			}
 		}
 		// every Gateway API site x reference form x the deny / allow settings of its key, then random ones
 		for _, site := range gwSites {
@@ -1009,18 +1085,23 @@ func main() {
 			}
 			res.Count(fmt.Sprintf("site=gateway-%s/denied=%v", ref.Site, denied))
 			res.Seen(fmt.Sprintf("%+v %+v %s", in, ref, nsm), nsm == "b" || strings.Contains(ref.Name, "/"))
-			w1 := runGwWorld(in, true)
-			w2 := runGwWorld(in, false)
-			res.OracleChecks++
+			w1 := runGwWorld(in, 1)
+			w2 := runGwWorld(in, 0)
+			w3 := runGwWorld(in, 2)
+			res.OracleChecks += 2
 			res.Sample(8, map[string]interface{}{"input": in, "world_with_foreign_object": w1.View, "world_without": w2.View})
-			if denied && !sameView(w1.View, w2.View) {
+			if denied && (!sameView(w1.View, w2.View) || !sameView(w1.View, w3.View)) {
 				key := "C09/site-gateway-backendref"
 				if ref.Site == "certificateref" {
 					key = "C09/site-gateway-certificateref"
 				}
+				dep := "whether b/foreign exists"
+				if sameView(w1.View, w2.View) {
+					dep = "the content of b/foreign"
+				}
 				res.Count("oracle_fail_" + key)
-				res.Fail(hx.Failure{Key: key, What: fmt.Sprintf("%s of namespace a names %q with namespace member %s while the cross-namespace bit is deny: the configuration of namespace a depends on whether b/foreign exists", ref.Site, ref.Name, nsm),
-					Input: in, Observed: map[string]interface{}{"with_foreign": w1, "without_foreign": w2}})
+				res.Fail(hx.Failure{Key: key, What: fmt.Sprintf("%s of namespace a names %q with namespace member %s while the cross-namespace bit is deny: the configuration of namespace a depends on %s", ref.Site, ref.Name, nsm, dep),
+					Input: in, Observed: map[string]interface{}{"with_foreign": w1, "without_foreign": w2, "with_other_content": w3}})
 			}
 			if !o.Search {
 				for _, w := range []worldObs{w1, w2} {
@@ -1053,9 +1134,10 @@ func main() {
 			res.Count(fmt.Sprintf("site=%s/on=%s/denied=%v", in.Reader.Key, in.Reader.On, denied))
 			res.Seen(fmt.Sprintf("%+v %+v", in, *in.Reader), strings.Contains(in.Reader.Ref, "b/"))
 			for r := 0; r < rep; r++ {
-				w1 := runWorld(in, true)
-				w2 := runWorld(in, false)
-				res.OracleChecks++
+				w1 := runWorld(in, 1)
+				w2 := runWorld(in, 0)
+				w3 := runWorld(in, 2)
+				res.OracleChecks += 2
 				if r == 0 {
 					res.Sample(6, map[string]interface{}{"input": in, "world_with_foreign_object": w1.View, "world_without": w2.View})
 					if !o.Search {
@@ -1090,10 +1172,14 @@ func main() {
 						}
 					}
 				}
-				if denied && !sameView(w1.View, w2.View) {
+				if denied && (!sameView(w1.View, w2.View) || !sameView(w1.View, w3.View)) {
+					dep := "whether b/foreign exists"
+					if sameView(w1.View, w2.View) {
+						dep = "the content of b/foreign"
+					}
 					res.Count("oracle_fail_site_" + in.Reader.Key)
-					res.Fail(hx.Failure{Key: "C09/site-" + in.Reader.Key, What: fmt.Sprintf("reader in namespace a sets %s=%q with the cross-namespace bit at deny: the configuration of namespace a depends on whether b/foreign exists", in.Reader.Key, in.Reader.Ref),
-						Input: in, Observed: map[string]interface{}{"with_foreign": w1, "without_foreign": w2}})
+					res.Fail(hx.Failure{Key: "C09/site-" + in.Reader.Key, What: fmt.Sprintf("reader in namespace a sets %s=%q with the cross-namespace bit at deny: the configuration of namespace a depends on %s", in.Reader.Key, in.Reader.Ref, dep),
+						Input: in, Observed: map[string]interface{}{"with_foreign": w1, "without_foreign": w2, "with_other_content": w3}})
 					break
 				}
 			}
